@@ -364,6 +364,40 @@ def one_edit(rng, t):
             continue
     return ('concat', 'new', [(False, t), (False, ('raws', 'q'))]), 'child_added'
 
+def hash_invisible_edit(rng, t):
+    """an edit that == sees but the hash deliberately does not: SourceMapSource name, RawSource
+    string vs buffer, insertion order of replacements"""
+    nodes = list(nodes_of(t))
+    rng.shuffle(nodes)
+    for path, n in nodes:
+        if n[0] == 'sms':
+            return replace_at(t, path, (n[0], n[1], n[2] + 'x', n[3], n[4], n[5], n[6])), 'sms_name'
+        if n[0] == 'raws':
+            return replace_at(t, path, ('rawb', n[1].encode())), 'raw_string_vs_buffer'
+        if n[0] == 'repl' and len(n[2]) >= 2 and n[2][0][:2] != n[2][1][:2]:
+            rs = list(n[2]); rs[0], rs[1] = rs[1], rs[0]
+            return replace_at(t, path, ('repl', n[1], rs)), 'replacement_order'
+    return None, None
+
+def gen_hash_equal_pair(rng, cfg):
+    """two unequal trees with identical hasher streams, both behind a CachedSource, both hashed"""
+    for _ in range(20):
+        g = gen_tree.Gen(rng, cfg)
+        a = g.node(weighted(rng, [(0, 2), (1, 3), (2, 3)]))
+        b, kind = hash_invisible_edit(rng, a)
+        if b is not None:
+            break
+    else:
+        return gen_edit_pair(rng, cfg)
+    wrap = rng.random() < 0.7
+    if wrap:
+        a = ('cached', 500, a); b = ('cached', 501, renumber(b, 1000))
+    else:
+        b = renumber(b, 1000)
+    pre = lambda: [rng.choice(['hash', 'src', 'm1', 's10']) for _ in range(rng.randrange(0, 3))] + (['hash'] if rng.random() < 0.8 else [])
+    return Case('pair', {'a': a, 'b': b, 'relaxed': False, 'law': None, 'opsa': pre(), 'opsb': pre()},
+                {'nontrivial', 'edit_' + kind, 'hash_equal_unequal_trees', 'observers_before_compare'} | ({'cached_wrapper'} if wrap else set()))
+
 def gen_edit_pair(rng, cfg, with_ops=True):
     g = gen_tree.Gen(rng, cfg)
     a = g.node(weighted(rng, [(0, 2), (1, 3), (2, 3), (3, 2)]))
